@@ -410,6 +410,10 @@ func c19BufferAfterAbandon(x *X) {
 			x.Fail("C19/race-outcome", "CallWithContext whose context ended while the response was arriving: returned=%v err=%v", ab.ret, ab.err)
 		}
 	} else {
+		early := pipelined && x.Choose(2) == 1 // the context is done before the request has left the writer queue
+		if early {
+			ab.hctx.cancel(context.DeadlineExceeded)
+		}
 		ab.spawn(f.conn)
 		vs.Quiesce()
 		ab.hctx.cancel(context.DeadlineExceeded)
@@ -582,4 +586,58 @@ func c19SlowDialElsewhere(x *X) {
 func init() {
 	register(&Scenario{Prop: "C19", Name: "c19/contexts-with-cause", Quick: []Bound{{0, 0}, {1, 0}}, Thorough: []Bound{{2, 0}}, Body: c19Cause, MaxSteps: 200000, BudgetQ: 10})
 	register(&Scenario{Prop: "C19", Name: "c19/transport-slow-dial-elsewhere", Quick: []Bound{{0, 0}, {1, 0}}, Thorough: []Bound{{2, 0}}, Body: c19SlowDialElsewhere, MaxSteps: 200000, BudgetQ: 15})
+}
+
+// the clause "a caller-supplied context buffer is used for the reply when large enough and safely
+// ignored when not", for contexts that can end and for contexts that never end (Done() == nil:
+// context.Background() with values - what a server hands to a context-style handler): with the
+// aliasing BYTES codec the reply lives in the buffer exactly when it fits.
+type nodoneCtx struct{ *hctx }
+
+func (c nodoneCtx) Done() <-chan struct{} { return nil }
+
+func c19BufferUsed(x *X) {
+	nodone := x.Choose(2) == 1
+	size := []int{12, 40, 64, 65, 120}[x.Choose(5)]
+	pipelined := x.Choose(2) == 1
+	f := newFixture(srvOpts{bufSize: 64}, cliOpts{bufSize: 64, pipelining: pipelined})
+	buf := make([]byte, 64)
+	for i := range buf {
+		buf[i] = 0xA5
+	}
+	c := newUcall(0x31, 0, size, formCallCtx)
+	hc := newCtx(buf)
+	var ctx context.Context = hc
+	if nodone {
+		ctx = nodoneCtx{hc}
+	}
+	ret := false
+	vs.GoNamed("caller", func() { c.err = f.conn.CallWithContext(ctx, c.method, &c.args, &c.reply); ret = true })
+	vs.Quiesce()
+	if !ret || c.err != nil || !eqBytes(c.reply, c.want()) {
+		x.Fail("C19/call-failed/buffer-used", "CallWithContext: returned=%v err=%v", ret, c.err)
+	} else {
+		inBuf := len(c.reply) > 0 && &c.reply[0] == &buf[0]
+		fits := len(c.want()) <= len(buf)
+		switch {
+		case fits && !inBuf:
+			x.Fail("C19/context-buffer-not-used", "the reply (%d bytes) fits the caller-supplied context buffer (64 bytes) and was not placed in it (context that never ends: %v, client pipelining %v)", len(c.reply), nodone, pipelined)
+		case !fits && inBuf:
+			x.Fail("C19/context-buffer-overrun", "the reply (%d bytes) does not fit the 64-byte context buffer and was placed in it", len(c.reply))
+		case !fits:
+			for i, b := range buf {
+				if b != 0xA5 {
+					x.Fail("C19/context-buffer-overrun", "the reply does not fit the context buffer, which was written at offset %d", i)
+					break
+				}
+			}
+		}
+	}
+	x.Outcome("nodone=%v size=%d pipelined=%v", nodone, size, pipelined)
+	f.conn.Close()
+	vs.Quiesce()
+}
+
+func init() {
+	register(&Scenario{Prop: "C19", Name: "c19/context-buffer-used-when-large-enough", Quick: []Bound{{0, 0}}, Thorough: []Bound{{1, 0}}, Body: c19BufferUsed, BudgetQ: 10, MinHB: 1})
 }
